@@ -638,6 +638,11 @@ func cmdCheck(args []string) int {
 						out = replayOutcome{"skipped", "native replay disabled for this unit"}
 					} else {
 						out = nr.run(rf, "")
+						// a schedule is re-enacted by counting schedule points; Go's randomised map iteration can
+						// reorder them between native runs, so a run that did not reproduce is repeated
+						for try := 0; u.Sched && try < 3 && !(v.Kind == "assert" && out.Status == "assert-fail" && strings.TrimSpace(out.Detail) == v.Label) && !(v.Kind == "panic" && out.Status == "panic"); try++ {
+							out = nr.run(rf, "")
+						}
 					}
 					rf.Native = out.Status + " " + out.Detail
 					confirmed := false
@@ -866,6 +871,9 @@ func cmdReplay(args []string) int {
 		nr := &nativeRunner{spec: &spec, unit: u, specDir: specDir}
 		abs, _ := filepath.Abs(args[0])
 		out := nr.run(&rf, abs)
+		for try := 0; u.Sched && try < 3 && out.Status != "assert-fail" && out.Status != "panic"; try++ {
+			out = nr.run(&rf, abs) // map iteration order can shift the schedule points of a native run
+		}
 		fmt.Printf("native replay of %s: %s %s\n", rf.Entry, out.Status, out.Detail)
 		if out.Status == "assert-fail" || out.Status == "panic" {
 			fmt.Printf("VIOLATION property=%s replay=%s\n", rf.Property, abs)
